@@ -321,7 +321,6 @@ theorem step_inv {s : St} {op : TOp} (si : SInv s) (hok : opOk s op = true)
     · exact si
     · next hd =>
       rw [if_neg hd] at hr
-      simp only at hr ⊢
       unfold InRange at hr
       simp only [kills_tab] at hr
       refine ⟨?_, ?_⟩
